@@ -253,15 +253,12 @@ func ruleP03LineEnding(p *Prog, r *Report) {
 		}
 		ok := false
 		for _, g := range guardsOf(ls.st.Block()) {
-			bo, isB := g.Cond.(*ssa.BinOp)
-			if !isB {
+			// "this line has no ending" in any spelling (== "", len(...) == 0, …)
+			x, isEmpty, isG := emptyGuard(g)
+			if !isG || !isEmpty {
 				continue
 			}
-			s, isS := constString(bo.Y)
-			if !isS || s != "" || (bo.Op == token.EQL) != g.Pol {
-				continue
-			}
-			if u, isU := strip(bo.X).(*ssa.UnOp); isU && u.Op == token.MUL {
+			if u, isU := strip(x).(*ssa.UnOp); isU && u.Op == token.MUL {
 				if fa, isFa := u.X.(*ssa.FieldAddr); isFa && fieldName(fa) == "LineEnding" && sameElemAddr(fa.X, ls.fa.X) {
 					ok = true
 				}
@@ -722,6 +719,36 @@ func ruleP08Cursor(p *Prog, r *Report) {
 		total = sl2.Low
 		_, isPhi2 = strip(total).(*ssa.Phi)
 	}
+	// the running-suffix spelling: rest = text; …ParseBlock(rest, …); rest = rest[bytesConsumed:];
+	// the total returned is len(text) - len(rest)
+	if !isPhi2 {
+		if rest, isR := strip(pc.Common().Args[0]).(*ssa.Phi); isR {
+			okRest := len(rest.Edges) > 0
+			for _, e := range rest.Edges {
+				if strip(e) == ssa.Value(mp.Params[1]) {
+					continue
+				}
+				cut, isS := strip(e).(*ssa.Slice)
+				if !isS || strip(cut.X) != ssa.Value(rest) || cut.High != nil || cut.Low == nil || !sameValue(cut.Low, resultOf(pc, 1)) {
+					okRest = false
+				}
+			}
+			r.check(okRest, rule, "mapParse:from", p.instrPos(pc), "the next block is parsed from the rest of the text after the bytes consumed so far", "the next block is not parsed from the text that follows the bytes consumed so far")
+			okTotal := true
+			for _, ret := range returnsOf(mp) {
+				pl := polyOf(retResult(ret, 2))
+				want := newPoly()
+				want.Terms["len(param:"+mp.Params[1].Name()+")"] = 1
+				want.Terms["len("+leafKey(rest)+")"] = -1
+				if !pl.equal(want) {
+					okTotal = false
+				}
+			}
+			r.check(okTotal, rule, "mapParse:consumed", p.instrPos(pc), "bytes consumed = len(text) - len(rest)", "the byte total returned by mapParse is not the length of the text minus what is left of it")
+			isPhi2 = false
+			goto lines
+		}
+	}
 	r.check(isPhi2, rule, "mapParse:from", p.instrPos(pc), "the next block is parsed from text[consumed:]", "the next block is not parsed from text[total bytes consumed:]")
 	if isPhi2 {
 		ph := strip(total).(*ssa.Phi)
@@ -749,6 +776,7 @@ func ruleP08Cursor(p *Prog, r *Report) {
 		}
 		r.check(okT, rule, "mapParse:consumed", p.instrPos(pc), "consumed += bytes consumed by the block", "the running byte offset is not increased by exactly the bytes the block consumed")
 	}
+lines:
 	// line count: second argument of ParseBlock is a phi increased by len(block.Lines())
 	lc, isPhi3 := strip(pc.Common().Args[1]).(*ssa.Phi)
 	okL := isPhi3
